@@ -28,8 +28,13 @@ def run(ctx):
       r_ops, w_ops = cachesys.gen_workload(ctx.rng, nmetrics=2, nts=2, nstores=ctx.pick(4, 5), ndrains=2,
                                            nqueries=1, ticks=(st == 'timesorted'))
       # bounded and unbounded cache (a full cache must still take updates of cached timestamps)
-      cfg = dict(strategy=st, max=(None if w % 2 == 0 else 2), flow=False, lag=0)
+      cfg = dict(strategy=st, max=(None if w % 2 == 0 else 2), flow=False, lag=0, frac=(w % 3 != 2))   # mostly fractional float timestamps
       expl.append((cfg, r_ops, w_ops, ctx.pick(1, 2), ctx.pick(40, 200), ctx.pick(150, 1500)))
+  # flow control: between MAX_CACHE_SIZE (soft, 'nearly full') and 1.05 * MAX_CACHE_SIZE (hard) datapoints are still
+  # accepted - the band only exists for MAX_CACHE_SIZE >= 20
+  for k, st in enumerate(cachesys.STRATEGIES if not ctx.quick else cachesys.STRATEGIES[(ctx.seed + 1) % 2::2]):
+    r_ops, w_ops = cachesys.band_workload(ctx.rng)
+    expl.append((dict(strategy=st, max=20, flow=True, lag=0, coarse=True), r_ops, w_ops, 0, ctx.pick(3, 12), 2))
   cachecheck.run_plan(ctx, 'C02', models, sims, expl)
 
 
